@@ -3,8 +3,9 @@
 (* into exactly the logged fields, under the parameters the active code generator had installed.        *)
 (* Events (reformatted only; strings as character-code arrays):                                         *)
 (*   [a |-> "SPLIT", raw, p |-> [div, attrchars, hasattrs, cmt, qq], lab, op, attr, args]               *)
-(*   [a |-> "PAIR",  raw, orig, p, lab, op, attr, args]   raw = a rewritten spelling of orig: additionally *)
-(*                   both spellings must be the same statement (SameStatement)                          *)
+(*   [a |-> "PAIR",  raw, orig, p, lab, op, attr, args, nest, fin, fin0]   raw = a rewritten spelling of orig:   *)
+(*                   additionally both spellings must be the same statement (SameStatement; NestOK for a  *)
+(*                   statement with a compound parameter)                                                *)
 (*   [a |-> "FILE",  data, lines]   whole file and the logical lines delivered (reader: ReadLnCont)       *)
 (*   [a |-> "RESET"]                                                                                    *)
 EXTENDS SourceLine, TLC, Json, IOUtils
@@ -17,8 +18,21 @@ Logged(e) == [lab |-> e.lab, op |-> e.op, attr |-> e.attr, args |-> e.args]
 \* AposRegisterOpensQuote): the hook does not log the function pointer.
 PWith(e, q) == [div |-> e.p.div, attrchars |-> e.p.attrchars, hasattrs |-> e.p.hasattrs, cmt |-> e.p.cmt, qq |-> q]
 SplitOK(e) == \E k \in 1..Len(e.p.qq) : Fields(Split(e.raw, PWith(e, e.p.qq[k]))) = Logged(e)
+\* e.nest = "": an ordinary statement.  Otherwise the statement has a compound parameter (SourceLine.tla Part 4)
+\* and e.nest names its secondary splitter: the two spellings must RE-SPLIT into the same statement, and what the
+\* code generator finally assembled (stmt hook: e.fin = [op, argc] of the rewritten line, e.fin0 of the original)
+\* must be that statement's mnemonic and parameter count
+ResplitKinds == {"rpt", "c6x", "op", "dct", "pref", "brbit", "bit"}
+NestOK(e, PP) ==
+  LET r0 == ResplitLine(e.nest, e.orig, PP)
+      r1 == ResplitLine(e.nest, e.raw, PP)
+  IN  /\ UpStr(Split(e.orig, PP).lab) = UpStr(Split(e.raw, PP).lab)
+      /\ NormR(r0) = NormR(r1)
+      /\ e.fin = e.fin0
+      /\ e.nest \in ResplitKinds => (r1.ok /\ UpStr(e.fin.op) = r1.op /\ e.fin.argc = Len(r1.args))
 PairOK(e)  == \E k \in 1..Len(e.p.qq) : /\ Fields(Split(e.raw, PWith(e, e.p.qq[k]))) = Logged(e)
-                                         /\ SameStatement(e.orig, e.raw, PWith(e, e.p.qq[k]))
+                                         /\ IF e.nest = "" THEN SameStatement(e.orig, e.raw, PWith(e, e.p.qq[k]))
+                                            ELSE NestOK(e, PWith(e, e.p.qq[k]))
 
 \* [a |-> "FILE", data, lines]: the characters of a whole source file and the logical lines the assembler
 \* delivered for it in pass 1 (`line` hook events): ReadLnCont() applied again and again (buffer capacity carried
